@@ -457,11 +457,11 @@ def cmdArgs (hs : List String) : List String :=
 
 def cmdMainSM (args : List String) : List String :=
   match args.mapM (fun a => if a == "1" then some true else if a == "0" then some false else none) with
-  | some [x1, x2, x3, x4, x5, x6, x7, x8, x9, x10, x11, x12, x13, x14, x15] =>
+  | some [x1, x2, x3, x4, x5, x6, x7, x8, x9, x10, x11, x12, x13, x14, x15, x16] =>
     let s : MainSM.Scn := {
       sameInOut := x1, gdlOpens := x2, encodingOk := x3, tmpOk := x4, ppOk := x5, parseOk := x6,
       postParseOk := x7, fontOk := x8, optsOk := x9, preCompileOk := x10, dbgFiles := x11, dbgXml := x12,
-      outOpens := x13, outWrites := x14, errFileOpens := x15 }
+      outOpens := x13, outWrites := x14, errFileOpens := x15, fsmOk := x16 }
     let r := MainSM.run s
     let opName (x : MainSM.Op) : String := (toString (repr x)).replace "Grc.MainSM.Op." ""
     let opsStr := ",".intercalate (r.ops.map opName)
